@@ -245,6 +245,8 @@ def gen_text(rng, exact, colon=False, force=None):
     lines.append("")
     lines.append("[HitObjects]")
     nn = rng.choice([0, 1, 2, 4, 6, 9])
+    if force:
+        nn = max(nn, 1)
     for i in range(nn):
         c = rng.randrange(k)
         x = _x_for_column(rng, c, k)
@@ -275,7 +277,7 @@ def gen_text(rng, exact, colon=False, force=None):
         elif r < 0.11:
             l = l + "　"
         out.append(l)
-        if rng.random() < 0.03:
+        if rng.random() < 0.03 and l.strip() != "//Background and Video events":   # the NEXT line carries the background
             out.append("")
     return {"lines": out, "keys": k}
 
